@@ -811,3 +811,83 @@ impl tudp__ClientCodec {
             Self { key, command, address, status: tcli__CodecState::Header }
         }
     }
+
+//@@ octo-squirrel/src/config.rs:86-90  impl AsRef for ServerConfig  sha=753d283322902a38
+impl<S: Clone + Default> AsRef<ServerConfig<S>> for ServerConfig<S> {
+    fn as_ref(&self) -> &ServerConfig<S> {
+        self
+    }
+}
+
+//@@ octo-squirrel-server/src/server.rs:42-53  fn startup  sha=5b558bb3076fb7ad
+fn startup(config: ServerConfig<SslConfig>, Tracked(vlog): Tracked<&mut SrvLog>) {
+    match config.protocol {
+        Protocol::Shadowsocks => sssrv__startup(&config, Tracked(vlog)),
+        Protocol::VMess => {
+            merge_result((startup_quic(&config, &config, vmesssrv__new_codec, Tracked(vlog)), startup_tcp(&config, &config, vmesssrv__new_codec, Tracked(vlog))))
+        }
+        Protocol::Trojan => {
+            merge_result((startup_quic(&config, &config, new_codec, Tracked(vlog)), startup_tcp(&config, &config, new_codec, Tracked(vlog))))
+        }
+    }
+    .unwrap_or_else(|e| ());
+}
+
+//@@ octo-squirrel-server/src/server.rs:55-62  fn merge_result  sha=a0f375a4cf253389
+fn merge_result(res: (anyhow::Result<()>, anyhow::Result<()>)) -> anyhow::Result<()> {
+    match res {
+        (Ok(_), Ok(_)) => Ok(()),
+        (Ok(_), Err(e)) => Err(verif_err()),
+        (Err(e), Ok(_)) => Err(verif_err()),
+        (Err(e1), Err(e2)) => Err(verif_err()),
+    }
+}
+
+//@@ octo-squirrel-server/src/server.rs:64-111  fn startup_tcp  sha=0eef38f9525dd39f
+fn startup_tcp<RefContext, Context, NewCodec, Codec>(
+    context: RefContext,
+    config: &ServerConfig<SslConfig>,
+    new_codec: NewCodec,Tracked(vlog): Tracked<&mut SrvLog>
+) -> anyhow::Result<()>
+where
+    RefContext: AsRef<Context>,
+    NewCodec: FnOnce(&Context) -> anyhow::Result<Codec> + Copy + Send + Sync + 'static,
+    Codec: Encoder<OutboundIn, Error = anyhow::Error>
+        + Decoder<Item = InboundIn, Error = anyhow::Error>
+        + Send
+        + 'static,
+{
+    let listener = TcpListener::bind(verif_host_port(&(config.host), config.port), Tracked(vlog))?;
+    /*R2*/
+    match (&config.ssl, &config.ws) {
+        (None, ws_config) => {
+            while let Ok((inbound, _)) = listener.accept(Tracked(vlog)) {
+                if ws_config.is_some() {
+                    tokio::spawn(tmpltcp__accept_websocket_then_replay(inbound, new_codec(context.as_ref())?, Tracked(vlog)));
+                } else {
+                    tokio::spawn(tmpltcp__relay(inbound, new_codec(context.as_ref())?, Tracked(vlog)));
+                }
+            }
+        }
+        (Some(ssl_config), ws_config) => {
+            let cert = CertificateDer::from_pem_file(ssl_config.certificate_file.as_str())?;
+            let key = PrivateKeyDer::from_pem_file(ssl_config.key_file.as_str())?;
+            let tls_config = rustls__ServerConfig::builder().with_no_client_auth().with_single_cert(vec![cert], key)?;
+            let tls_acceptor = TlsAcceptor::from(Arc::new(tls_config));
+            while let Ok((inbound, _)) = listener.accept(Tracked(vlog)) {
+                let codec = new_codec(context.as_ref())?;
+                match tls_acceptor.accept(inbound, Tracked(vlog)) {
+                    Ok(inbound) => {
+                        if ws_config.is_some() {
+                            tokio::spawn(tmpltcp__accept_websocket_then_replay(inbound, new_codec(context.as_ref())?, Tracked(vlog)));
+                        } else {
+                            tokio::spawn(tmpltcp__relay(inbound, codec, Tracked(vlog)));
+                        }
+                    }
+                    Err(e) => (),
+                }
+            }
+        }
+    }
+    Ok(())
+}
